@@ -135,7 +135,8 @@ def explore(I, H, jobs=16, max_paths=2000000, time_budget=3600, keep_summaries=4
                     continue
             for res in done:
                 if res.get('unsupported'):
-                    ex.unsupported = res['unsupported'][-700:]
+                    u = res['unsupported']
+                    ex.unsupported = u if len(u) < 900 else u[:350] + ' ... ' + u[-450:]
                 for (end, fails, summary, ndec) in res['results']:
                     ex.paths += 1
                     ex.ends[end] += 1
